@@ -20,6 +20,9 @@ type SimStorage struct {
 	Name    string
 	data    map[string]simEntry
 	Alias   bool // hand out the stored slice itself
+	// HideSizes keeps value lengths out of the trace (gob output of a map varies
+	// in length with Go's map order, which would break exact replay of the log)
+	HideSizes bool
 	FailGet int  // permille
 	FailSet int
 	FailDel int
@@ -60,6 +63,13 @@ func NewSimStorage(s *simrt.Sim, name string) *SimStorage {
 	return &SimStorage{S: s, Name: name, data: map[string]simEntry{}}
 }
 
+func (st *SimStorage) sz(n int) int {
+	if st.HideSizes {
+		return -1
+	}
+	return n
+}
+
 func (st *SimStorage) pre(op, key string) {
 	st.Ops++
 	simrt.Yield(100)
@@ -95,7 +105,7 @@ func (st *SimStorage) Get(key string) ([]byte, error) {
 		return nil, nil
 	}
 	if st.S.Tracing() {
-		st.S.Logf("%s GET %q -> %d bytes", st.Name, key, len(e.val))
+		st.S.Logf("%s GET %q -> %d bytes", st.Name, key, st.sz(len(e.val)))
 	}
 	if st.Alias {
 		return e.val, nil
@@ -128,7 +138,7 @@ func (st *SimStorage) Set(key string, val []byte, exp time.Duration) error {
 	}
 	st.data[key] = e
 	if st.S.Tracing() {
-		st.S.Logf("%s SET %q %d bytes ttl=%v", st.Name, key, len(val), exp)
+		st.S.Logf("%s SET %q %d bytes ttl=%v", st.Name, key, st.sz(len(val)), exp)
 	}
 	if st.OnOp != nil {
 		st.OnOp("set", key)
